@@ -186,6 +186,82 @@ def compareFmt (i : FmtInput) (raw : Str) : Option String :=
         else recCmp (elvishRecs m vs) d.recs
       | _ => none
 
+/-! ### per-property aspects of a disagreement
+
+When the model's output and the implementation's differ, the disagreement concerns a property
+only if the part of the decoded output that property speaks about differs.  Both outputs are
+decoded with the consumer-side decoder and projected:
+  C02  what each inserted text reads back as (the words the user ends up with)
+  C03  the inserted texts themselves (modulo one trailing blank, which is C05's)
+  C04  the records: how many, and display / description / tag of each
+  C05  per record the no-space expression, and the global flag
+  C06  messages, usage, and the synthetic error entries
+If either side cannot be decoded the disagreement concerns all of them. -/
+
+def modelDecoded (i : FmtInput) : Option Decoded :=
+  let shName := i.sh.name.toList
+  let meta0 : Meta := { messages := i.msgs, nospace := i.nospace, usage := i.usage }
+  let (m, vs) := pipeline shName i.env i.word meta0 i.values
+  match i.sh with
+  | .bash => decodeBash (bashFormat i.env i.word m vs)
+  | .tcsh => decodeLines (tcshFormat i.env i.word vs)
+  | .oil => decodeLines (oilFormat m vs)
+  | .fish => decodeFish (fishFormat vs)
+  | .bashBle => decodeBashBle (bashBleFormat m vs)
+  | .cmdClink => decodeCmdClink (cmdClinkFormat m vs)
+  | .zsh => decodeZsh ([Char.ofNat 1] ++ Str.joinChar '\n' (zshMessages m) ++ [Char.ofNat 1] ++ zshData i.env m vs ++ [Char.ofNat 1])
+  | .export => some { recs := (exportRecs vs).map (fun v => ({ insert := v.value, display := v.display, description := v.description, tag := v.tag } : Rec)),
+                      messages := m.messages, usage := m.usage }
+  | .nushell => some { recs := nushellRecs m vs }
+  | .powershell => some { recs := powershellRecs m vs }
+  | .xonsh => some { recs := xonshRecs m vs }
+  | .ion => some { recs := ionRecs m vs }
+  | .elvish => some { recs := elvishRecs m vs, messages := m.messages, usage := if vs.isEmpty then m.usage else [] }
+
+def dropBlank (s : Str) : Str := if s.getLast? == some ' ' then s.dropLast else s
+
+def isErrRec (r : Rec) : Bool :=
+  let head := r.display.takeWhile (· != ' ')
+  isErrDisplay head || head == ['_'] || endsErrLike (dropBlank r.insert)
+
+structure Aspects where
+  c02 : List Str
+  c03 : List Str
+  c04 : List Str
+  c05 : List Str
+  c06 : List Str
+  deriving BEq
+
+def aspectsOf (i : FmtInput) (d : Decoded) : Aspects :=
+  let z : Str := [Char.ofNat 0]
+  -- the synthetic error entries are C06's (and, as records, C04's); C02 / C03 / C05 speak about candidates
+  let cand := (d.recs.filter (fun r => !isErrRec r)).map (observe i)
+  let srt (l : List Str) := sortBy Str.lt l
+  let wordOf (o : Obs) : Str := match o.word with | some w => dropBlank w | none => z ++ dropBlank o.text
+  let spaceOf (o : Obs) : Str :=
+    (match o.rc.nospace with | some true => ['n'] | some false => ['s'] | none => ['-']) ++
+    (match o.read with | .ok (_, b) => if b then ['S'] else ['N'] | .error _ => ['?'])
+  -- decoders of the line formats copy the inserted text into `display`: that is C03's, not C04's
+  let displayIsInsert := i.sh == .bash || i.sh == .tcsh || i.sh == .oil || i.sh == .fish
+  { c02 := srt (cand.map wordOf),
+    c03 := srt (cand.map (fun o => dropBlank o.text)),
+    c04 := srt (d.recs.map (fun r => (if displayIsInsert then [] else r.display) ++ z ++ r.description ++ z ++ r.tag)),
+    c05 := cand.map spaceOf ++ [match d.globalNospace with | some true => ['n'] | some false => ['s'] | none => ['-']],
+    c06 := d.messages ++ [z ++ d.usage] ++ srt ((d.recs.filter isErrRec).map (fun r => r.insert ++ z ++ r.display ++ z ++ r.description)) }
+
+def aspectJson (i : FmtInput) (same : Bool) (real : Option Decoded) : Json :=
+  let all (b : Bool) := Json.mkObj [("C02", Json.bool b), ("C03", Json.bool b), ("C04", Json.bool b), ("C05", Json.bool b), ("C06", Json.bool b)]
+  if same then all true else
+  match real, modelDecoded i with
+  | some r, some m =>
+    let a := aspectsOf i r
+    let b := aspectsOf i m
+    -- a difference none of the projections sees (order, styles, the zstyle field) stays with C04, the wire format
+    let unattributed := a == b
+    Json.mkObj [("C02", Json.bool (a.c02 == b.c02)), ("C03", Json.bool (a.c03 == b.c03)), ("C04", Json.bool (a.c04 == b.c04 && !unattributed)),
+                ("C05", Json.bool (a.c05 == b.c05)), ("C06", Json.bool (a.c06 == b.c06))]
+  | _, _ => all false
+
 def failureJson (f : Failure) : Json :=
   Json.mkObj [("prop", Json.str f.prop), ("code", Json.str f.code), ("detail", Json.str f.detail)]
 
@@ -209,6 +285,7 @@ def runValue (inp out : Json) : Json :=
           | .error _ => fails
         else fails
       Json.mkObj [("same", Json.bool diff.isNone), ("diff", Json.str (diff.getD "")),
+                  ("aspects", aspectJson i diff.isNone dec),
                   ("fails", Json.arr (fails.map failureJson).toArray), ("soft", Json.num soft),
                   ("feat", Json.mkObj [("shell", Json.str i.sh.name), ("nvals", Json.num i.values.length),
                                        ("nrecs", Json.num (match dec with | some d => d.recs.length | none => 0)),
